@@ -30,7 +30,7 @@ fn main() {
             id => {
                 for s in stages(id) {
                     // only the in-process stages (not the debug-profile or child-process ones)
-                    if s.prop.stage() != "main" {
+                    if s.prop.stage() != "main" && s.prop.stage() != "fat" {
                         continue;
                     }
                     let rep = s.prop.eval(&tape);
